@@ -18,13 +18,18 @@ PID = 'C03'
 _RUN = {}
 
 
-QUOTA = [0.05, 0.15, 0.25, 0.29, 0.35, 0.44, 0.5, 0.58, 0.62, 0.7, 0.75, 0.82, 0.9, 0.95, 0.99, 0.84]
+# 21 slots: 4 hand-over, dispatch, hostile output, count-down, 2 pending return, 2 label table / two labels, 2 self return,
+# big hand-over, NaN variants, tiny, general mix (0.87), 2 stack 0 as data (-1), 2 zoo (-2)
+QUOTA = [0.05, -1, 0.15, -2, 0.25, 0.29, 0.35, 0.44, 0.5, 0.58, -1, 0.62, 0.7, -2, 0.75, 0.82, 0.9, 0.95, 0.99, 0.87, 0.84]
 
 
 def _gen(rng, i=None):
     # a fixed schedule by case index (not a coin per case) so that every run contains every shape
     k = rng.random() if i is None else QUOTA[i % len(QUOTA)]
-    if i is not None and i % 8 == 6:
+    if k == -2:
+        # many different command forms per compilation (each C03 case costs three rustc runs)
+        name, prog = 'tmpl:zoo', gen.tmpl_zoo(rng)
+    elif k == -1:
         # the compiled program has its own implementation of stack 0 / input lines
         name, prog = 'tmpl:stack0_data', gen.tmpl_stack0_data(rng, nan_share=0.5)
     elif k < 0.3:
